@@ -5,6 +5,7 @@ import numpy as np
 import torch
 from hypothesis import strategies as st
 
+from vp.core import engine
 from vp.core.engine import Obligation, Property
 from vp.gen import agents as ag
 from vp.gen import histories as hist
@@ -220,7 +221,7 @@ def run_generations(case, ctx):
 
 @st.composite
 def gen_strategy(draw, tier):
-    algo = draw(st.sampled_from(ag.ALL_ALGOS))
+    algo = draw(st.sampled_from(engine.stratum(ag.ALL_ALGOS)))
     if algo in ag.BANDITS:
         fam = "vector"
     elif algo in ag.MULTI_OFF + ag.MULTI_ON:
